@@ -60,7 +60,7 @@ def h_sites(residue):
     return [(n, R @ np.array(x) + t) for n, x in tpl.items() if n.startswith("H") and n not in ("H", "HA", "HA2", "HA3")]
 
 
-def crowd(chains, rng, prob):
+def crowd(chains, rng, prob, many=False):
     """Obstacle waters right where side-chain hydrogens will be built (0.6-1.2 A from the hydrogen site, >= 1.9 A
     from every input heavy atom): the added hydrogens clash, so the residue is debumped through several torsions."""
     heavy = np.array([x for ch in chains for r in ch for n, x in r["atoms"] if not n.startswith("H")])
@@ -72,8 +72,9 @@ def crowd(chains, rng, prob):
             sites = h_sites(r)
             rng.shuffle(sites)
             placed = 0
-            for _n, hpos in sites:
-                if placed >= rng.choice([1, 2, 3]):
+            limit = rng.choice([4, 6, 9]) if many else rng.choice([1, 2, 3])
+            for _n, hpos in sites * (2 if many else 1):
+                if placed >= limit:
                     break
                 for _try in range(12):
                     d = np.array([rng.gauss(0, 1) for _ in range(3)])
@@ -125,7 +126,8 @@ def synth(spec):
     dense = rng.random() < p.get("dense_prob", 0.5)
     pack(chains, rng, dense)
     nwat = rng.choice(p.get("waters", [0, 0, 2, 5]))
-    wat = crowd([c for c, k in zip(chains, kinds) if k == "aa"], rng, p["crowd_prob"]) if p.get("crowd_prob") else []
+    wat = crowd([c for c, k in zip(chains, kinds) if k == "aa"], rng, p["crowd_prob"],
+                many=rng.random() < p.get("crowd_heavy_prob", 0.0)) if p.get("crowd_prob") else []
     for _ in range(nwat):
         for _try in range(20):
             ch = rng.choice(chains)
